@@ -572,8 +572,12 @@ def worker_C16(payload):
         x = sim.exc_info(e)
         if documented_rejection(x):
             return {"status": "rejected", "exc": x, "violations": [], "cfg": cfg}
+        tag = ""
+        if x["type"] == "ZeroDivisionError" and "run_single_timestep" in str(x["origin"]) and not sim.crop_params[cfg["crop"]["name"]].get("YldWC") \
+                and not cfg["crop"].get("kwargs", {}).get("YldWC"):
+            tag = ":YldWC0"
         return {"status": "exception", "exc": x, "cfg": cfg,
-                "violations": [dict(V("C16:raises:%s:%s" % (x["type"], x["origin"]), "valid configuration raised %s at %s: %s" % (x["type"], x["last"], x["msg"][:160]), exc=x), cfg=cfg)]}
+                "violations": [dict(V("C16:raises:%s:%s%s" % (x["type"], x["origin"], tag), "valid configuration raised %s at %s: %s" % (x["type"], x["last"], x["msg"][:160]), exc=x), cfg=cfg)]}
     t = tables_of(m)
     wt = int(m._param_struct.water_table)
     steps = [i for i in range(len(t["flux"])) if i == 0 or t["flux"][i, 0] == i and (t["flux"][i, 0] != 0)]
@@ -739,7 +743,7 @@ def _c18(payload):
                 if col in r and not pd.isna(r[col]) and float(r[col]) != float(arr[i]):
                     chk(False, "layer_props:%s" % col, "compartment %d (layer %d) has %s=%r, its layer says %r" % (i, lay[i], col, float(arr[i]), float(r[col]))); break
     zmax = max(float(c.Zmax) for c in ps.Seasonal_Crop_List)
-    chk(float(zbot[-1]) >= zmax - 1e-9, "depth", "profile ends at %.3f m, above the maximum rooting depth %.3f m" % (float(zbot[-1]), zmax))
+    chk(float(cum[-1]) >= zmax - 1e-9, "depth", "profile ends at %.3f m (sum of thicknesses), above the maximum rooting depth %.3f m" % (float(cum[-1]), zmax))
     # layer thickness coverage: user layers contiguous
     # initial water content
     iw = cfg.get("iwc") or {"wc_type": "Prop", "method": "Layer", "depth_layer": [1], "value": ["FC"]}
@@ -764,16 +768,22 @@ def _c18(payload):
                 else:
                     ok = False
         else:
+            # the given depth points carry water contents (the requested property / percentage of available water of the
+            # layer found at that depth, or the number itself); these are interpolated linearly at the compartment
+            # mid-depths (mid-depths from the running sum of thicknesses), constant beyond the first / last point
             xs = [float(x) for x in dl]
+            def comp_at(depth):
+                for j in range(n):
+                    if depth < dzsum[j]:
+                        return j
+                return n - 1
+            ys = []
+            for x, v in zip(xs, vals):
+                j = comp_at(x)
+                ys.append(val_for(v, j))
+            mids = (np.append([0.0], dzsum[:-1]) + dzsum) / 2
             for i in range(n):
-                if iw["wc_type"] == "Prop":
-                    ys = [val_for(v, i) for v in vals]
-                elif iw["wc_type"] == "Pct":
-                    ys = [float(v) for v in vals]
-                else:
-                    ys = [float(v) for v in vals]
-                y = _interp(float(zmid[i]), xs, ys)
-                exp[i] = (wp[i] + y / 100.0 * (fc[i] - wp[i])) if iw["wc_type"] == "Pct" else y
+                exp[i] = _interp(float(mids[i]), xs, ys)
         if ok and not np.allclose(th0, exp, rtol=0, atol=1e-9):
             i = int(np.argmax(np.abs(th0 - exp)))
             viol.append(V("C18:iwc:%s:%s" % (iw["wc_type"], iw["method"]), "initial water content of compartment %d is %.9g, the specification (%s/%s %r at %r) gives %.9g" % (i, th0[i], iw["wc_type"], iw["method"], vals, dl, exp[i])))
